@@ -1,0 +1,15 @@
+//go:build verif
+
+package value
+
+// VerifPoint is installed by the verification harness (build tag verif). It is
+// called at points where shared list state is about to be published or
+// re-sliced, and at the start of multiUse consumers; the harness may delay
+// there to widen interleavings and counts the events.
+var VerifPoint func(name string, a, b int)
+
+func verifPoint(name string, a, b int) {
+	if f := VerifPoint; f != nil {
+		f(name, a, b)
+	}
+}
